@@ -86,8 +86,6 @@ Ltac chain :=
   | H : Step _ _ ?a ?b |- Step _ _ ?a ?c => apply (Step_trans _ _ _ _ _ H); chain
   | |- _ => idtac
   end.
-(* pose the specification of a call that returns (node, events) before destructing it *)
-Ltac spec2 L S V := pose proof L as [S V]; cbn [fst snd] in S, V.
 
 (* ---------- ISO-TP control messages ---------- *)
 Lemma send_tpcm_cts_ok nd mx r pgn dst idev np nx : G nd mx r -> 0 <= idev < Z.of_nat nd ->
@@ -306,7 +304,12 @@ Proof.
   destruct (rpgn =? 126996).
   { pose proof (send_product_info_ok nd mx r0 i H0 Hi) as [S1 V1]. split; [chain|auto]. }
   destruct (rpgn =? 126998).
-  { pose proof (send_config_info_ok nd mx r0 i H0 Hi) as [S1 V1]. split; [chain|auto]. }
+  { destruct (c_confinfo (r_cfg r0)).
+    - (* no configuration information configured: NAK to an addressed request, silence on a broadcast one *)
+      destruct addressed; cbn [fst snd]; auto with safe.
+      match goal with |- context [rsend r0 ?m i] => pose proof (rsend_ok' nd mx r0 m i H0) as [S1 V1]; destruct (rsend r0 m i) as [[r1 ev1] ok1] end.
+      cbn [fst snd] in *. split; [chain|auto].
+    - pose proof (send_config_info_ok nd mx r0 i H0 Hi) as [S1 V1]. split; [chain|auto]. }
   destruct (match c_iso_handler (r_cfg r0) with Some acc => _ | None => _ end) as [[|]|]; cbn [fst snd]; auto using evs_note with safe.
   destruct addressed; cbn [fst snd]; auto with safe.
   match goal with |- context [rsend r0 ?m i] => pose proof (rsend_ok' nd mx r0 m i H0) as [S1 V1]; destruct (rsend r0 m i) as [[r1 ev1] ok1] end.
@@ -460,8 +463,6 @@ Proof.
       apply evs_app; auto. apply evs_note.
     + split; [|auto with safe]. destruct H0 as [[Ha Hb] Hc]. split; [split|]; auto.
 Qed.
-Lemma open_step_open r : snd (open_step r) && (n_open (rn (fst (fst (open_step r)))) =? 3) = true -> True.
-Proof. auto. Qed.
 
 Lemma rflush_ok nd mx r : G nd mx r -> Step nd mx r (fst (rflush r)) /\ evs_ok (snd (rflush r)).
 Proof.
